@@ -300,8 +300,10 @@ class ContractionTree:
         self.contraction_cores = {}
 
         # a default objective function useful for
-        # further optimization and scoring
-        self._default_objective = objective
+        # further optimization and scoring, n.b. it might be given by name
+        self._default_objective = (
+            None if objective is None else get_score_fn(objective)
+        )
 
     def set_state_from(self, other):
         """Set the internal state of this tree to that of ``other``."""
